@@ -129,6 +129,27 @@ def r20_1(ctx):
     f = P.own_method("Stage", "subject_to")
     has_guard(ctx, f, lambda t, k: t.startswith("gridnotin[") and k == "raise", "Stage.subject_to: unknown grid rejected", "unknown grid name", "if grid not in [...]: raise")
     has_guard(ctx, f, lambda t, k: t == "grid=='point'" and k == "raise", "Stage.subject_to: a signal expression on grid 'point' is rejected", "path constraint declared as a point constraint", "if is_signal(constr): if grid == 'point': raise", top_level=False)
+    # 9b. grid names of integral / sum and of variable / parameter declarations: a name no method reads is rejected
+    for fname, arg in (("integral", "grid"), ("sum", "grid"), ("register_variable", "grid"), ("register_parameter", "grid")):
+        g = P.own_method("Stage", fname)
+        sg = ctx.scope(g)
+        ok = False
+        found = "no rejection of unknown names"
+        # accepted shapes: `if grid not in [...]: raise`, or an if/elif chain on grid== whose final else raises
+        for test, node, pol in raising_ifs(g.node):
+            t = norm_text(test)
+            if pol is True and (t.startswith("%snotin[" % arg) or t.startswith("%snotin(" % arg) or t.startswith("%s!=" % arg)):
+                # must not be preceded by a return on the same path, nor nested under another condition
+                if not sg.guards(node):
+                    ok = True
+                    found = t[:80]
+        chain = [i for i in walk_no_nested(g.node) if isinstance(i, ast.If) and norm_text(i.test).startswith("%s==" % arg)]
+        last = [i for i in chain if i.orelse and not (len(i.orelse) == 1 and isinstance(i.orelse[0], ast.If))]
+        if len(last) == 1 and any(isinstance(x, ast.Raise) for x in last[0].orelse):
+            ok = True
+            found = "if/elif chain ending in raise"
+        ctx.check(ok, "Stage.%s: unknown grid rejected" % fname, detail="a grid name that no method reads is accepted (the request is silently treated as another grid, or the symbol is silently never created)",
+                  expected="if %s not in [<names the methods read>]: raise" % arg, found=found, fi=g, sample={"fn": fname, "guard": found})
     f = P.own_method("Stage", "_sample")
     sc = ctx.scope(f)
     chain = [i for i in walk_no_nested(f.node) if isinstance(i, ast.If) and norm_text(i.test).startswith("grid==")]
@@ -176,7 +197,7 @@ def r20_1(ctx):
     f = P.own_method("SplineMethod", "transcribe_start")
     has_guard(ctx, f, lambda t, k: "numel_out('alg')==0" in t and k == "assert", "SplineMethod: DAE rejected", "DAE under SplineMethod", "assert ode.numel_out('alg')==0")
     has_guard(ctx, f, lambda t, k: "sparsity_in('t').nnz()==0" in t and k == "assert", "SplineMethod: time-varying dynamics rejected", "time dependence under SplineMethod", "assert ode.sparsity_in('t').nnz()==0")
-    tr = [t for t in walk_no_nested(f.node) if isinstance(t, ast.Try) and any("evalf" in ast.unparse(s) for s in t.body)]
+    tr = [t for t in walk_no_nested(f.node) if isinstance(t, ast.Try) and any("evalf(A)" in ast.unparse(s).replace(" ", "") for s in t.body)]
     ok = len(tr) == 1 and all(any(isinstance(x, ast.Raise) for x in h.body) for h in tr[0].handlers)
     ctx.check(ok, "SplineMethod: nonlinear dynamics rejected", detail="nonlinear dynamics under SplineMethod", expected="try: A = evalf(A) ... except: raise", found="", fi=f)
     has_guard(ctx, f, lambda t, k: "is_forest" in t and k == "assert", "SplineMethod: non-chain dynamics rejected", "dynamics that are not integrator chains", "assert nx.is_forest(G)")
@@ -291,3 +312,9 @@ def r20_3(ctx):
     from .c15 import r15_2
     r04_1(ctx)
     r15_2(ctx)
+
+
+@rule("R20.4", min_instances=5, desc="model features SplineMethod cannot represent are rejected: DAE, time-varying, nonlinear and affine (constant / parameter term) dynamics, localised grids (R17.5, shared with C17)")
+def r20_4(ctx):
+    from .c17 import r17_5
+    r17_5(ctx)
